@@ -45,7 +45,7 @@ impl Property for C02 {
         "C02"
     }
     fn rule(&self) -> &'static str {
-        "profile `protocol`: expansion-style programs rich in C and X rows, both driver types (write_input overridden / defaulted), >= 1 output-capable signal, and a caller schedule (prefix length at which the iterator is dropped, 0-3 extra next() calls after None). Oracle: self-consistency between the recording driver's log and the items, measured as the log delta of every API call (constructor = one output-reading call with every input-capable signal at its default; Ok(row) = exactly one call, vector identical to row.inputs entry by entry, output-reading method iff row.outputs non-empty; None = zero calls, also afterwards; drop = zero calls; laziness: log length before the k-th next() = 1 + rows already returned), plus a closed formula for the number of mid-clock rows of loop-free programs. Non-trivial: trace has a mid-clock row or >= 3 rows, and the schedule has a post-None call or an early drop; distinct by source + signals + driver + schedule."
+        "profile `protocol`: expansion-style programs rich in C and X rows, both driver types (write_input overridden / defaulted), >= 1 output-capable signal (one test in six: none at all - a pure stimulus whose rows report no outputs, where the mid-clock rows are known from their position in the expansion only), and a caller schedule (prefix length at which the iterator is dropped, 0-3 extra next() calls after None). Oracle: self-consistency between the recording driver's log and the items, measured as the log delta of every API call (constructor = one output-reading call with every input-capable signal at its default; Ok(row) = exactly one call, vector identical to row.inputs entry by entry, output-reading method iff row.outputs non-empty; None = zero calls, also afterwards; drop = zero calls; laziness: log length before the k-th next() = 1 + rows already returned), plus a closed formula for the number of mid-clock rows of loop-free programs. Non-trivial: trace has a mid-clock row or >= 3 rows, and the schedule has a post-None call or an early drop; distinct by source + signals + driver + schedule."
     }
     fn cases(&self, tier: Tier) -> u64 {
         match tier {
@@ -54,17 +54,30 @@ impl Property for C02 {
         }
     }
     fn required_classes(&self) -> Vec<&'static str> {
-        vec!["mid-clock-row", "early-drop", "post-none-calls", "overriding-driver", "defaulting-driver", "formula-checked", "ran-to-end", "driver-failure-inside-an-expansion"]
+        vec!["mid-clock-row", "early-drop", "post-none-calls", "overriding-driver", "defaulting-driver", "formula-checked", "ran-to-end", "driver-failure-inside-an-expansion", "pure-stimulus-test"]
     }
     fn run(&self, s: &Streams) -> CaseOut {
         let mut out = CaseOut::new();
         let mut cfg = expansion_cfg();
         cfg.device_whiles = false;
+        let mut dch = Ch::new(&s[2]);
+        // one test in six is a pure stimulus: input signals only, nothing to read back. Its
+        // rows carry no output entries at all, and still every row that is not a mid-clock row
+        // is sent with the output-reading call.
+        let pure_stimulus = dch.chance(1, 6);
+        if pure_stimulus {
+            cfg.n_out = (0, 0);
+            cfg.n_bidir = (0, 0);
+            cfg.max_virtual = 0;
+            cfg.reads = false;
+        }
         let mut built = gen_case(&mut Ch::new(&s[0]), &cfg);
         // tags: which source row is an item from, and where in its expansion does it sit?
         let rows = instrument(&mut built, &mut Ch::new(&s[1]), 0, ProbePref::Vars, &[]);
         let text = built_text(&built);
-        let mut dch = Ch::new(&s[2]);
+        // no output-capable and no virtual signal: checkedness cannot be read off row.outputs
+        let has_outs = built.sigs.iter().any(|s| s.is_output()) || !built.analysis.virtuals.is_empty();
+        out.class_if(!has_outs, "pure-stimulus-test");
         let spec = gen_spec(
             &mut dch,
             &built.sigs,
@@ -133,6 +146,19 @@ impl Property for C02 {
             );
             return out;
         }
+        // position of every item within the expansion of its source row (from the tags)
+        let tag_of0 = |r: &RealRow| match r.inputs.iter().find(|e| e.0 == "TAG").map(|e| e.1) {
+            Some(InVal::Val(t)) => Some(t),
+            _ => None,
+        };
+        let tags0: Vec<Option<i64>> = real.items.iter().map(|i| if let RealItem::Row(r) = i { tag_of0(r) } else { None }).collect();
+        let pos0 = positions(&tags0, &rows);
+        let mid_by_position = |i: usize| -> Option<bool> {
+            pos0.get(i).copied().flatten().map(|(rid, p)| {
+                let phases = if rows[&rid].cs.is_empty() { 1 } else { 3 };
+                p % phases != phases - 1
+            })
+        };
         // every next()
         let mut rows_so_far = 0usize;
         let mut midclock = 0u64;
@@ -160,7 +186,14 @@ impl Property for C02 {
                         );
                         return out;
                     }
-                    let want_read = !r.outputs.is_empty() || !spec.override_write;
+                    // a mid-clock row: by its (empty) outputs where the test has any output to
+                    // report, by its position in the expansion otherwise
+                    let is_mid = if has_outs { r.outputs.is_empty() } else { mid_by_position(k).unwrap_or(false) };
+                    if !has_outs && mid_by_position(k).is_none() {
+                        out.discard("untagged-row");
+                        return out;
+                    }
+                    let want_read = !is_mid || !spec.override_write;
                     if call.read != want_read {
                         out.fail(
                             "c02:wrong-method",
@@ -173,7 +206,7 @@ impl Property for C02 {
                         );
                         return out;
                     }
-                    if r.outputs.is_empty() {
+                    if is_mid {
                         midclock += 1;
                     }
                     rows_so_far += 1;
@@ -232,6 +265,7 @@ impl Property for C02 {
             Some(InVal::Val(t)) => Some(t),
             _ => None,
         };
+        let run_override = spec.override_write;
         let check_positions = |run: &RealRun, out: &mut CaseOut| -> bool {
             let tags: Vec<Option<i64>> = run.items.iter().map(|i| if let RealItem::Row(r) = i { tag_of(r) } else { None }).collect();
             let pos = positions(&tags, &rows);
@@ -240,6 +274,24 @@ impl Property for C02 {
                 let info = &rows[&rid];
                 let phases = if info.cs.is_empty() { 1 } else { 3 };
                 let must_be_checked = p % phases == phases - 1;
+                if !has_outs {
+                    // nothing to report in row.outputs: the call kind carries the distinction
+                    let before = run.log_len_before[i];
+                    if let Some(call) = run.log.get(before) {
+                        if call.read != (must_be_checked || !run_override) {
+                            out.fail(
+                                "c02:wrong-method",
+                                format!(
+                                    "next() #{i}: item at position {p} of the expansion of source row #{rid} ({} C columns) of a test without outputs was sent with the {} method",
+                                    info.cs.len(),
+                                    if call.read { "output-reading" } else { "write-only" }
+                                ),
+                            );
+                            return false;
+                        }
+                    }
+                    continue;
+                }
                 if must_be_checked == r.outputs.is_empty() {
                     out.fail(
                         "c02:wrong-rows-checked",
@@ -280,7 +332,7 @@ impl Property for C02 {
                     let after = faulty.log_len_before.get(i + 1).copied().unwrap_or(faulty.log.len());
                     match item {
                         RealItem::Row(r) => {
-                            if after - before != 1 || faulty.log[before].inputs != r.inputs || faulty.log[before].read != (!r.outputs.is_empty() || !fspec.override_write) {
+                            if after - before != 1 || faulty.log[before].inputs != r.inputs || (has_outs && faulty.log[before].read != (!r.outputs.is_empty() || !fspec.override_write)) {
                                 out.fail("c02:protocol-broken-after-driver-error", format!("next() #{i} (after a driver failure at item {k}): {} calls, method/vector do not match the row", after - before));
                                 return out;
                             }
